@@ -172,6 +172,15 @@ class VIndexOf(V):
     if isinstance(t, VSeries):
       s = t.labels
       return VSeq(s.length, s.at, s.esort, s.elems, s.dupfree, sid=s.sid)
+    if isinstance(t, VEligTable):
+      # the row labels of a validated table in table order: no duplicates
+      if t.labels is not None and not t.by_pos:
+        s = t.labels
+        return VSeq(s.length, s.at, s.esort, s.elems, s.dupfree, sid=s.sid)
+      if t.labels is None:
+        out = fresh_seq(ex.ctx, 'tbl.index')
+        ex.ctx.assume(out.elems == t.rows)
+        return out
     ex.unsupported(node, 'list(index) of %s' % t.kind)
 
   def py_toset(self, ex, node):
@@ -307,10 +316,48 @@ class VPanel(V):
       return VIndexOf(self)
     if name == 'to_numpy':
       return VBound(lambda ex_, a, k, n: VRowArray(self.labels, self.tag))
+    if name == 'iloc':
+      return VPanelILoc(self)
+    if name == 'apply':
+      return VBound(self._apply)
     ex.unsupported(node, 'panel attribute %s' % name)
+
+  def _apply(self, ex, args, kwargs, node):
+    """df.apply(f, axis=1): a Series over the same row labels whose values
+    are a function of the panel data and the label (f is not interpreted)."""
+    ax = kwargs.get('axis')
+    if not (isinstance(ax, VInt) and z3.is_int_value(ax.t) and
+            ax.t.as_long() == 1 and len(args) == 1):
+      ex.unsupported(node, 'apply arguments')
+    tag = self.tag
+    f = z3.Function('ROWAPPLY', tag.sort(), I, z3.RealSort())
+    return VSeries(self.labels, lambda g: f(tag, g))
 
   def select(self, ex, idx):
     return VPanel(idx, self.tag)
+
+
+class VPanelILoc(V):
+  """df.iloc[:, -n:]: the same rows, the last n columns."""
+  kind = 'paneliloc'
+
+  def __init__(self, panel):
+    self.panel = panel
+
+  def py_getitem_ast(self, ex, sl, env, node):
+    import ast
+    ok = (isinstance(sl, ast.Tuple) and len(sl.elts) == 2 and
+          all(isinstance(e, ast.Slice) for e in sl.elts) and
+          sl.elts[0].lower is None and sl.elts[0].upper is None and
+          sl.elts[0].step is None and sl.elts[1].upper is None and
+          sl.elts[1].step is None and sl.elts[1].lower is not None)
+    if not ok:
+      ex.unsupported(node, 'iloc pattern')
+    lo = ex.eval(sl.elts[1].lower, env)
+    lo = num_term(ex.need_not_none(lo, node, 'slice bound'))
+    p = self.panel
+    trunc = z3.Function('LASTCOLS', p.tag.sort(), I, p.tag.sort())
+    return VPanel(p.labels, trunc(p.tag, lo))
 
 
 class TPanel(Shape):
